@@ -42,6 +42,8 @@ var (
 	writeFaults = []vconn.Fault{
 		{Name: "short-by-1", Short: 1}, {Name: "zero-bytes", Zero: true},
 		{Name: "EPIPE", Err: opErr("write", syscall.EPIPE)}, {Name: "timeout", Err: opErr("write", vconn.Timeout())}, {Name: "ECONNRESET", Err: opErr("write", syscall.ECONNRESET)},
+		// the peer stops draining: the Write blocks until the connection is closed or its write deadline passes
+		{Name: "blocks", Block: true},
 	}
 	closeFaults = []vconn.Fault{{Name: "EIO", Err: opErr("close", syscall.EIO)}, {Name: "timeout", Err: opErr("close", vconn.Timeout())}}
 	dlFaults    = []vconn.Fault{{Name: "EINVAL", Err: opErr("set", syscall.EINVAL)}}
@@ -225,6 +227,11 @@ func main() {
 			}
 			if !clientClosedAtReturn || !covertClosedAtReturn {
 				return &vsched.Violation{Key: "connection-left-open", What: fmt.Sprintf("when Proxy returned: client closed=%v covert closed=%v", clientClosedAtReturn, covertClosedAtReturn)}
+			}
+			if client.ClosedAt != covert.ClosedAt {
+				// a direction that ends closes both connections itself: teardown must not depend on the other direction
+				// noticing (it may be blocked in a Write to a peer that does not drain, until its 30 s / 2 min deadline)
+				return &vsched.Violation{Key: "teardown-waits-for-other-direction", What: fmt.Sprintf("client connection closed at %v, covert connection at %v", client.ClosedAt, covert.ClosedAt)}
 			}
 			if k, w := checkDirection("up", client, covert); k != "" {
 				return &vsched.Violation{Key: k, What: w}
